@@ -601,6 +601,65 @@ func scOrigin(sets []string) string {
 	return "reply:" + strings.ReplaceAll(strings.SplitN(line, "\r", 2)[0], " ", "-")
 }
 
+// scMaxRecv: MAX-RCV-SIZE set to these values in turn -- the first half before Listen, the rest on the live listener,
+// each either on the listener or on its socket (which passes it on) -- then a new peer connects and sends one message.
+func scMaxRecv(tr string, viaSocket bool, msglen int, sets []string) string {
+	sock := wire.New("pair")
+	defer sock.Close()
+	addr := wire.Addr(tr)
+	l, err := sock.NewListener(addr, wire.Opts(tr, true))
+	if err != nil {
+		return "listener:" + short(err)
+	}
+	half := len(sets) / 2
+	apply := func(xs []string) string {
+		for _, x := range xs {
+			v, _ := strconv.Atoi(x)
+			if viaSocket {
+				err = sock.SetOption(mangos.OptionMaxRecvSize, v)
+			} else {
+				err = l.SetOption(mangos.OptionMaxRecvSize, v)
+			}
+			if err != nil {
+				return "set:" + short(err)
+			}
+			if g, err := l.GetOption(mangos.OptionMaxRecvSize); err != nil || g != v {
+				return "get-differs"
+			}
+		}
+		return ""
+	}
+	if r := apply(sets[:half]); r != "" {
+		return r
+	}
+	if err := l.Listen(); err != nil {
+		return "listen:" + short(err)
+	}
+	if r := apply(sets[half:]); r != "" {
+		return r
+	}
+	peer := wire.New("pair")
+	defer peer.Close()
+	if err := peer.DialOptions(addr, wire.Opts(tr, false)); err != nil {
+		return "dial:" + short(err)
+	}
+	_ = peer.SetOption(mangos.OptionSendDeadline, time.Second)
+	_ = sock.SetOption(mangos.OptionRecvDeadline, 400*time.Millisecond)
+	if err := peer.Send(make([]byte, msglen)); err != nil {
+		return "send:" + short(err)
+	}
+	b, err := sock.Recv()
+	switch {
+	case err == mangos.ErrRecvTimeout:
+		return "dropped"
+	case err != nil:
+		return "recv:" + short(err)
+	case len(b) != msglen:
+		return "altered"
+	}
+	return "delivered"
+}
+
 func runScenario(spec string) {
 	f := strings.Fields(spec)
 	atoi := func(s string) int { v, _ := strconv.Atoi(s); return v }
@@ -626,6 +685,8 @@ func runScenario(spec string) {
 			out = scRetry(atoi(f[1]), atoi(f[2]))
 		case "origin":
 			out = scOrigin(f[1:])
+		case "maxrecv":
+			out = scMaxRecv(f[1], f[2] == "sock", atoi(f[3]), f[4:])
 		}
 	}()
 	fmt.Println(out)
@@ -703,7 +764,27 @@ func allScenarios() []scenario {
 		}
 		sc = append(sc, scenario{strings.TrimSpace("origin " + seq), "EOrigin " + coqgen.List(bs)})
 	}
+	// MAX-RCV-SIZE on a listener, directly or through its socket, before and after Listen: the limit in force for a connection
+	// accepted later is the last value set (0 = none; the default is 1 MiB)
+	for ti, tr := range []string{"tcp", "ipc", "tls+tcp", "ws", "wss"} {
+		for ci, c := range []struct {
+			n    int
+			sets string
+		}{{200, ""}, {200, "100"}, {200, "100 300"}, {200, "300 100"}, {200, "100 0"}, {200, "0 100"}, {200, "100 200"}, {201, "100 200"}, {200, "50 300 100 400"}, {200, "400 50 300 100"}} {
+			via := (ti+ci)%2 == 1
+			sc = append(sc, scenario{strings.TrimSpace(fmt.Sprintf("maxrecv %s %s %d %s", tr, map[bool]string{true: "sock", false: "lis"}[via], c.n, c.sets)),
+				fmt.Sprintf("EMaxRecv %q %s %s %d%%N", tr, coqgen.Bool(via), coqgen.List(nlist(c.sets)), c.n)})
+		}
+	}
 	return sc
+}
+
+func nlist(s string) []string {
+	var o []string
+	for _, x := range strings.Fields(s) {
+		o = append(o, x+"%N")
+	}
+	return o
 }
 
 // runScenarios runs every scenario in its own process, a few at a time.
